@@ -314,6 +314,16 @@ func c09Worker(ctx *core.Ctx) *core.Result {
 		}
 		x.enumerate(l, true, c09Oracle(x))
 	}
+	// binding of the fake expect to the production stack: every baseline
+	// and single-deviation run of one scenario per SSH device type is
+	// repeated with the real binaries, the real goexpect and a real pty
+	if ctx.Shard == 0 {
+		types := []string{"ASA"}
+		if ctx.Thorough() {
+			types = []string{"ASA", "IOS", "Linux"}
+		}
+		stackCheck(ctx, x.res, types)
+	}
 	return x.res
 }
 
